@@ -26,7 +26,7 @@ func init() { checks["C06"] = checkC06 }
 // object (the method's receiver: Engine, the reverse searchers, lazy.DFA, CompositeSearcher, BoundedBacktracker users)
 // of scratch state that is NOT per-search: receiver.pikevm, receiver.<…>Backtracker.{IsMatch,IsMatchAnchored,Search,SearchAt}
 // (the variants that use the engine's internal state), receiver.matchLengths.  Fact = "pkg.Func: expr".
-func sharedAccessFacts(repo string) ([]string, error) {
+func sharedAccessFacts(repo string, unsafeTypes map[string]bool) ([]string, error) {
 	var facts []string
 	dirs := []string{"meta", "dfa/lazy", "nfa", "dfa/onepass", "prefilter", "."}
 	for _, d := range dirs {
@@ -54,7 +54,11 @@ func sharedAccessFacts(repo string) ([]string, error) {
 						var buf bytes.Buffer
 						printer.Fprint(&buf, fs, fld.Type)
 						t := buf.String()
-						if t == "*nfa.PikeVM" || t == "*PikeVM" || t == "nfa.PikeVM" || t == "PikeVM" {
+						bare := strings.TrimPrefix(t, "*")
+						if k := strings.LastIndex(bare, "."); k >= 0 {
+							bare = bare[k+1:]
+						}
+						if unsafeTypes[bare] {
 							for _, nm := range fld.Names {
 								if simFields[ts.Name.Name] == nil {
 									simFields[ts.Name.Name] = map[string]bool{}
@@ -93,20 +97,8 @@ func sharedAccessFacts(repo string) ([]string, error) {
 						switch x := n.(type) {
 						case *ast.SelectorExpr:
 							if id, ok := x.X.(*ast.Ident); ok && id.Name == recv {
-								if simFields[rt][x.Sel.Name] || x.Sel.Name == "matchLengths" || x.Sel.Name == "internalState" {
+								if simFields[rt][x.Sel.Name] {
 									facts = append(facts, fn+": "+recv+"."+x.Sel.Name)
-								}
-							}
-						case *ast.CallExpr:
-							// recv.<field>.Method(...) where field is a backtracker and Method uses internal state
-							if sel, ok := x.Fun.(*ast.SelectorExpr); ok {
-								if inner, ok := sel.X.(*ast.SelectorExpr); ok {
-									if id, ok := inner.X.(*ast.Ident); ok && id.Name == recv && strings.Contains(strings.ToLower(inner.Sel.Name), "backtracker") {
-										switch sel.Sel.Name {
-										case "IsMatch", "IsMatchAnchored", "Search", "SearchAt":
-											facts = append(facts, fn+": "+recv+"."+inner.Sel.Name+"."+sel.Sel.Name)
-										}
-									}
 								}
 							}
 						}
@@ -311,7 +303,12 @@ func checkC06(r *Report, known []Finding) {
 		"replay strategy-covering calls on shared Regex values, every result compared with the sequential one, every race report attributed to a listed call site or reported; " +
 		"non-trivial = the call finds a match; distinct by (pattern, call)"
 	// ---- (a) static facts
-	facts, err := sharedAccessFacts("/repo")
+	rwAll, rwErr := receiverWriteFacts("/repo")
+	if rwErr != nil {
+		r.Violate("receiver-write fact extraction failed: "+rwErr.Error(), map[string]any{"check": "go/ast fact extractor"}, true)
+		return
+	}
+	facts, err := sharedAccessFacts("/repo", unsafeTypesOf(rwAll))
 	if err != nil {
 		r.Violate("source-fact extraction failed: "+err.Error(), map[string]any{"check": "go/ast fact extractor"}, true)
 		return
@@ -465,20 +462,26 @@ func checkC06(r *Report, known []Finding) {
 		r.Violate("data race on a path that uses no listed shared-access site: "+key, map[string]any{"race_report": b[:min(len(b), 3000)], "frames": fns}, false)
 	}
 	r.Extra["race_reports"] = len(blocks) - 1
-	r.Sample(map[string]any{"fact": facts[0]})
+	if len(facts) > 0 {
+		r.Sample(map[string]any{"fact": facts[0]})
+	} else {
+		r.Sample(map[string]any{"shared_access_facts": 0, "receiver_write_facts_considered": len(rw)})
+	}
 	r.Sample(map[string]any{"worker": "8 goroutines x " + fmt.Sprint(rounds) + " rounds x 24 calls x " + fmt.Sprint(len(c06Templates)) + " patterns", "race_reports": len(blocks) - 1})
 	replayKnownExamples(r, known, "C06")
 }
 
 func init() {
 	exampleReplayers["source-fact"] = func(f Finding) bool {
-		facts, err := sharedAccessFacts("/repo")
+		rw, err := receiverWriteFacts("/repo")
 		if err != nil {
 			return true
 		}
-		if rw, err := receiverWriteFacts("/repo"); err == nil {
-			facts = append(facts, rw...)
+		facts, err := sharedAccessFacts("/repo", unsafeTypesOf(rw))
+		if err != nil {
+			return true
 		}
+		facts = append(facts, rw...)
 		for _, x := range facts {
 			if strings.HasPrefix(x, f.Example["site"]+":") {
 				return true
@@ -495,7 +498,11 @@ func init() {
 // owned by one search: *State, *Cache, builders used at compile time, sets, queues) are excluded by TYPE, not by call site.
 func receiverWriteFacts(repo string) ([]string, error) {
 	var facts []string
+	pooled := pooledOnlyTypes(repo)
 	perSearch := func(t string) bool {
+		if pooled[t] {
+			return true
+		}
 		for _, suf := range []string{"State", "Cache", "Set", "Table", "Queue", "Stack", "Config", "Compiler", "Extractor", "Seq", "Iter", "Error", "Stats", "Pool", "Slots", "Buf", "Budget"} {
 			if strings.HasSuffix(t, suf) {
 				return true
@@ -610,7 +617,6 @@ func receiverWriteFacts(repo string) ([]string, error) {
 	return facts, nil
 }
 
-
 // trackerConstructedByLibrary: is prefilter.NewTracker / NewTrackerWithConfig called anywhere in non-test library code
 // other than prefilter/tracker.go itself?
 func trackerConstructedByLibrary(repo string) bool {
@@ -626,4 +632,111 @@ func trackerConstructedByLibrary(repo string) bool {
 		return nil
 	})
 	return found
+}
+
+// unsafeTypesOf: the types that, according to the receiver-write facts, mutate their own state in a search-path method and
+// are therefore not safe to share (compile-time builders and the stand-alone Tracker are not reachable from a shared Regex).
+func unsafeTypesOf(rw []string) map[string]bool {
+	out := map[string]bool{}
+	for _, f := range rw {
+		site := f[:strings.Index(f, ":")]
+		typ := site[:strings.LastIndex(site, ".")] // pkg.(*T)
+		if typ == "onepass.(*Builder)" || typ == "prefilter.(*Tracker)" {
+			continue
+		}
+		if a, b := strings.Index(typ, "(*"), strings.Index(typ, ")"); a >= 0 && b > a {
+			out[typ[a+2:b]] = true
+		}
+	}
+	return out
+}
+
+// pooledOnlyTypes: struct types T that are only ever held through a pool — every struct field whose type mentions T is an
+// atomic.Pointer[T] or lives in a sync.Pool-owning struct, and no package-level variable has type T or *T.  A value of such a
+// type is owned by one search at a time (acquire … release), so writes to its fields are per-search, not shared.
+func pooledOnlyTypes(repo string) map[string]bool {
+	type use struct{ ok, bad int }
+	uses := map[string]*use{}
+	declared := map[string]bool{}
+	for _, d := range []string{"meta", "dfa/lazy", "nfa", "dfa/onepass", "prefilter"} {
+		fs := token.NewFileSet()
+		pkgs, err := parser.ParseDir(fs, filepath.Join(repo, d), func(fi os.FileInfo) bool { return !strings.HasSuffix(fi.Name(), "_test.go") }, 0)
+		if err != nil {
+			continue
+		}
+		for _, pkg := range pkgs {
+			for _, f := range pkg.Files {
+				ast.Inspect(f, func(n ast.Node) bool {
+					switch x := n.(type) {
+					case *ast.TypeSpec:
+						if _, ok := x.Type.(*ast.StructType); ok {
+							declared[x.Name.Name] = true
+						}
+					case *ast.Field:
+						var buf bytes.Buffer
+						printer.Fprint(&buf, fs, x.Type)
+						t := buf.String()
+						for name := range declared {
+							_ = name
+						}
+						// record by the bare type names mentioned
+						for _, tok := range strings.FieldsFunc(t, func(r rune) bool {
+							return !(r == '_' || r >= 'a' && r <= 'z' || r >= 'A' && r <= 'Z' || r >= '0' && r <= '9')
+						}) {
+							if uses[tok] == nil {
+								uses[tok] = &use{}
+							}
+							if strings.HasPrefix(t, "atomic.Pointer[") {
+								uses[tok].ok++
+							} else {
+								uses[tok].bad++
+							}
+						}
+					}
+					return true
+				})
+			}
+		}
+	}
+	out := map[string]bool{}
+	for name, u := range uses {
+		if declared[name] && u.ok > 0 {
+			// parameters and results of functions are ast.Fields too: a pooled type may be passed around inside its own package;
+			// what matters is that no STRUCT holds it other than through the atomic slot — checked separately below
+			out[name] = true
+		}
+	}
+	// refine: a struct field (not a parameter) of type *T / T outside an atomic.Pointer disqualifies T
+	for _, d := range []string{"meta", "dfa/lazy", "nfa", "dfa/onepass", "prefilter"} {
+		fs := token.NewFileSet()
+		pkgs, err := parser.ParseDir(fs, filepath.Join(repo, d), func(fi os.FileInfo) bool { return !strings.HasSuffix(fi.Name(), "_test.go") }, 0)
+		if err != nil {
+			continue
+		}
+		for _, pkg := range pkgs {
+			for _, f := range pkg.Files {
+				ast.Inspect(f, func(n ast.Node) bool {
+					st, ok := n.(*ast.StructType)
+					if !ok {
+						return true
+					}
+					for _, fld := range st.Fields.List {
+						var buf bytes.Buffer
+						printer.Fprint(&buf, fs, fld.Type)
+						t := buf.String()
+						if strings.HasPrefix(t, "atomic.Pointer[") || strings.HasPrefix(t, "sync.Pool") {
+							continue
+						}
+						bare := strings.TrimLeft(t, "*[]")
+						if k := strings.LastIndex(bare, "."); k >= 0 {
+							bare = bare[k+1:]
+						}
+						delete(out, bare)
+					}
+					return true
+				})
+			}
+		}
+	}
+	return out
 }
